@@ -113,6 +113,9 @@ pub struct Axm {
 
     /// Bitflags providing additional information about what has happened, or what you want to
     /// happen
+    // PMOFlags is a single byte on the wire, followed by one spare byte
+    #[br(map = |x: u8| PmoFlags::from_bits_truncate(x as u16))]
+    #[bw(map = |x: &PmoFlags| x.bits() as u8)]
     #[brw(pad_after = 1)]
     pub pmoflags: PmoFlags,
 
